@@ -744,7 +744,7 @@ def rule_interleaved_eval(ctx):
     f = ctx.p.func(C.UTILS, "convert_from_interleaved")
     k = ctx.key(f, "C12-INTERLEAVEDEVAL")
     pool = [0, 1, "x", (1, 2)]
-    subs = [()] + [(a,) for a in pool] + [(a, b) for a in pool[:3] for b in pool[:3]] + [(Ellipsis, 0), (1, Ellipsis)]
+    subs = [()] + [(a,) for a in pool] + [(a, b) for a in pool[:3] for b in pool[:3]] + [(Ellipsis, 0), (1, Ellipsis), (5, 3), (3, 1)]
     bad = None
     n = 0
     try:
@@ -796,6 +796,12 @@ def rule_interleaved_eval(ctx):
                             raise _ExpErr(f"two labels share a symbol in `{eq}`")
                         if out is not None and rhs != "".join(mp[lab] for lab in out):
                             raise _ExpErr(f"output sublist {list(out)} becomes `{rhs}`")
+                        # (defect F32) without an output sublist the result is ordered by the *labels* (numpy), and the
+                        # string form orders an implicit output by symbol: for comparable labels the renaming must be monotone
+                        ints = sorted(lab for lab in mp if isinstance(lab, int) and not isinstance(lab, bool))
+                        if out is None and len(ints) == len(mp) and [mp[lab] for lab in ints] != sorted(mp[lab] for lab in ints):
+                            raise _ExpErr(f"the labels {ints} are renamed to {[mp[lab] for lab in ints]}: an implicit output, sorted by symbol "
+                                          "downstream, comes out in order of appearance instead of numpy's label order")
                     except _ExpErr as e:
                         bad = bad or (args, str(e))
                     except Raised as e:
@@ -856,4 +862,26 @@ def rule_implicit_eval(ctx):
     return r
 
 
-RULES = [rule_implicit_eval, rule_interleaved_eval, rule_expand, rule_backend, rule_blanks, rule_ellipsis, rule_implicit, rule_interleaved, rule_single, rule_canon, rule_ncon]
+def rule_canon_always(ctx):
+    """(seed C12_11) The label interface accepts arbitrary hashable labels because `normalize_input` maps them to
+    single symbols before anything builds an equation string.  With `canonicalize` on, that mapping is
+    unconditional: the only test on the path to `canonicalize_inputs` is the option itself (a 'fast path' for labels
+    that are already strings lets multi-character labels through, which are then concatenated into index strings)."""
+    r = RuleResult("C12-CANONALWAYS", "labels are always mapped to symbols when canonicalisation is on", 1)
+    f = ctx.p.func(C.INTERFACE, "normalize_input")
+    C.require(f is not None, "normalize_input not found")
+    calls = [c for c in walk_local(f.node) if isinstance(c, ast.Call) and dotted(c.func) == "canonicalize_inputs"]
+    C.require(calls, "normalize_input: call of canonicalize_inputs not found")
+    k = ctx.key(f, "C12-CANONALWAYS")
+    ifs = C.enclosing_ifs(f, C.enclosing_stmt(f, calls[0]))
+    extra = [i_ for i_, t in ifs if not (isinstance(i_.test, ast.Name) and t)]
+    if extra:
+        r.violation(k, C.loc(f, extra[0]), f"`canonicalize_inputs` is reached only under `{C.unparse(extra[0].test, 90)}`: labels that take the other "
+                    "branch (multi-character strings, say) reach the equation builders unrenamed, where labels are concatenated into "
+                    "index strings — array_contract raises or contracts another network")
+    else:
+        r.ok(k, C.loc(f, calls[0]), "the renaming is guarded by the option alone")
+    return r
+
+
+RULES = [rule_canon_always, rule_implicit_eval, rule_interleaved_eval, rule_expand, rule_backend, rule_blanks, rule_ellipsis, rule_implicit, rule_interleaved, rule_single, rule_canon, rule_ncon]
